@@ -46,6 +46,8 @@ func runC19(c *Ctx) {
 	// what the template emits itself is not reported to the user as code about to be deleted (C18)
 	c18EmittedDeclsMarked(c)
 	c17Materialise(c)
+	structNameAgreement(c)
+	c19Round2(c)
 }
 
 func isCopiedLookup(v ssa.Value) bool {
